@@ -66,7 +66,8 @@ LIMIT_KEYS = {"names": "max_names_per_connection", "rules": "max_match_rules_per
               "completed": "max_completed_connections", "peruser": "max_connections_per_user",
               "replies": "max_replies_per_connection", "maxmsg": "max_message_size", "reply_timeout": "reply_timeout",
               "maxfds": "max_message_unix_fds", "pending_fd_timeout": "pending_fd_timeout",
-              "start_timeout": "service_start_timeout", "pending": "max_pending_service_starts", "auth_timeout": "auth_timeout"}
+              "start_timeout": "service_start_timeout", "pending": "max_pending_service_starts", "auth_timeout": "auth_timeout",
+              "outgoing": "max_outgoing_bytes"}
 
 
 def gids_of(uid):
@@ -93,6 +94,8 @@ class ImplRun:
         self.fdcounts = []     # after each op: descriptors open in the daemon beyond its baseline and its client sockets
         self.base_fds = self._stable_base()
         self.dirty = set()     # cids that wrote raw bytes: no barrier is sent on them any more
+        self.stalled = set()   # cids that have stopped reading (their outgoing queue at the bus is over max_outgoing_bytes)
+        self.flooded = False
         self.pre = {}          # hostile sockets that never authenticate
         self.stall = None
         self.max_latency = 0.0
@@ -253,6 +256,59 @@ class ImplRun:
                 raise InfraError("daemon never dropped %s" % name)
             time.sleep(0.002)
 
+    def _stall(self, cid):
+        """`cid` stops reading; the control connection sends it large signals until the bus refuses one because the
+        queue for `cid` is over max_outgoing_bytes. The flood (member VerifFlood) is harness traffic: it is filtered out of
+        everything every connection receives and is not given to the model, whose `stall` event says just that the queue
+        is full from now on."""
+        name, ctl = self.unique.get(cid), self.c.get(0)
+        if name is None or ctl is None or cid in self.closed or cid in self.stalled:
+            return
+        self.stalled.add(cid); self.flooded = True
+        pay = [0] * 60000
+        refused = 0
+        for k in range(600):
+            self.bserial += 1
+            s = self.bserial
+            ctl.send(bus.signal_msg(s, "/verif", "verif.h", "VerifFlood", "ay", [pay], dest=name))
+            self.bserial += 1
+            s2 = self.bserial
+            ctl.send(bus.method_call(s2, None, "/", "org.freedesktop.DBus.Peer", "Ping"))
+            msgs = ctl.recv_until(lambda m: m.mtype in (2, 3) and m.get(5) == s2, 10.0)
+            if not msgs or msgs[-1] is None:
+                raise DaemonStalled("control connection got no answer while filling the queue of connection %d" % cid)
+            if any(m.mtype == 3 and m.get(5) == s and m.get(4) == b"org.freedesktop.DBus.Error.LimitsExceeded" for m in msgs[:-1]):
+                # one refusal may only mean that the bus had queued faster than it could write; the queue stays over the
+                # limit once the socket takes no more: several refusals in a row, a moment apart
+                refused += 1
+                if refused >= 4:
+                    return
+                time.sleep(0.01)
+            else:
+                refused = 0
+        raise InfraError("the queue of connection %d never filled up" % cid)
+
+    def _unstall(self, cid, got):
+        if cid not in self.stalled:
+            return
+        self.stalled.discard(cid)
+        cl = self.c.get(cid)
+        if cl is None or cid in self.closed:
+            return
+        # read until the socket stays idle: the flood, and whatever was queued before the queue filled up
+        idle = 0
+        while idle < 3 and not cl.eof:
+            if cl._fill(0.05):
+                idle = 0
+            else:
+                idle += 1
+            while True:
+                raw = self._pop_raw(cl)
+                if raw is None:
+                    break
+                if b"VerifFlood" not in raw:
+                    got.setdefault(cid, []).append(raw)
+
     def step(self, op):
         """returns ({cid: [raw...]}, set of cids the bus closed during this op)"""
         got = {cid: [] for cid in self.c if cid not in self.closed}
@@ -308,6 +364,10 @@ class ImplRun:
                 except OSError:
                     pass
                 self.pre.pop(k, None)
+        elif op[0] == "stall":
+            self._stall(op[1])
+        elif op[0] == "unstall":
+            self._unstall(op[1], got)
         elif op[0] == "sleep":
             time.sleep((self.reply_timeout or 0) * 1.3 / 1000.0 + 0.05)
         elif op[0] == "fdsleep":
@@ -320,6 +380,11 @@ class ImplRun:
                 self._wait_gone(op[1])
         def settle(cid):
             if cid in self.closed or cid not in self.c:
+                return
+            if cid in self.stalled:
+                # it is not read from; whether the bus has dropped it is asked of the bus
+                if self._is_gone(cid):
+                    self.c[cid].close(); self.closed.add(cid); newly.add(cid); self.stalled.discard(cid)
                 return
             if cid in self.dirty:
                 # a connection that has written raw bytes may be in the middle of a message: it is not
@@ -379,6 +444,9 @@ class ImplRun:
                     r = Raw(raw); r.toks = tuple(toks[:n]); toks = toks[n:]; raws[k] = r
             if toks:
                 raws.append(Raw(b"")); raws[-1].toks = tuple(toks)      # descriptors that came with no message announcing them
+        if self.flooded:
+            for cid, raws in got.items():
+                got[cid] = [r for r in raws if b"VerifFlood" not in r]
         live = len([c for c in self.c if c not in self.closed])
         self.fdcounts.append(self.d.nfds() - self.base_fds - live)
         # learn unique names from Hello replies
@@ -492,6 +560,10 @@ def op_lines(ops, fdmode=False):
             lines.append("bus msg %d %s" % (op[1], op[2].hex()))
         elif op[0] == "close":
             lines.append("bus close %d" % op[1])
+        elif op[0] == "stall":
+            lines.append("bus stall %d 1" % op[1])
+        elif op[0] == "unstall":
+            lines.append("bus stall %d 0" % op[1])
         elif op[0] == "sleep":
             lines.append("bus timeout")
         elif op[0] == "fdsleep":
@@ -506,7 +578,7 @@ def op_lines(ops, fdmode=False):
 def model_run(ops, policy=SESSION, limits=None, fdmode=False):
     limits = dict(limits or {})
     limits.setdefault("maxmsg", 32 * 1024 * 1024)      # bus/config-parser.c: the bus's own default for max_message_size
-    lines = ["bus reset " + " ".join("%s=%d" % kv for kv in (limits or {}).items() if kv[0] not in ("reply_timeout", "pending_fd_timeout"))] + policy.to_model() + \
+    lines = ["bus reset " + " ".join("%s=%d" % kv for kv in (limits or {}).items() if kv[0] not in ("reply_timeout", "pending_fd_timeout", "outgoing"))] + policy.to_model() + \
         ([x for l in op_lines(ops, True) for x in (l, "bus fdstate")] if fdmode else op_lines(ops))
     outs = script.run_model("\n".join(lines) + "\n")[0]
     pre = 1 + len(policy.rules)
@@ -579,9 +651,21 @@ def compare(ops, policy=SESSION, limits=None, extra="", impl=None):
     steps, died, _ = impl if impl is not None else run_impl(ops, policy, limits, extra)
     isteps = dump_steps(steps)
     dirty = set()
+    stalled, deferred = set(), {}
     for i, (iper, newly) in enumerate(isteps):
         op = ops[i]
         mper, mclosed, _ = model[i]
+        if op[0] == "stall":
+            stalled.add(op[1])
+        # what the bus queues for a connection that is not reading is seen when it reads again
+        for cid in list(mper):
+            if cid in stalled and not (op[0] == "unstall" and op[1] == cid):
+                deferred.setdefault(cid, []).extend(mper.pop(cid))
+        if op[0] == "unstall" and op[1] in stalled:
+            stalled.discard(op[1])
+            mper[op[1]] = deferred.pop(op[1], []) + mper.get(op[1], [])
+        for cid in mclosed | newly:
+            stalled.discard(cid); deferred.pop(cid, None)
         if op[0] == "raw" and not (len(op) > 3 and op[3] and op[1] not in dirty):
             dirty.add(op[1])
         for cid in sorted(set(iper) | set(mper)):
@@ -638,6 +722,8 @@ def parse_op(s):
         return ("send", int(t[1]), bytes.fromhex(t[2]))
     if t[0] == "connect":
         return ("connect", int(t[1]), int(t[2]), t[3] in ("True", "1"))
+    if t[0] in ("stall", "unstall"):
+        return (t[0], int(t[1]))
     if t[0] == "sleep":
         return ("sleep",)
     if t[0] == "fdsleep":
